@@ -290,7 +290,7 @@ def run_shard(ctx):
     # between fragments show as protocol violations only under particular completion orders
     for k in range(ctx.n(500, 3500)):
         ctx.count("defer_family_requests")
-        c04.check_request(ctx, (base + k) * 11 + (7, 7, 9, 10, 5)[k % 5], k + 1, protocol=True, merge=False)
+        c04.check_request(ctx, (base + k) * 11 + (7, 7, 9, 10, 5, 3, 2, 4)[k % 8], k + 1, protocol=True, merge=False)
     part_b(ctx)
 
 
